@@ -98,7 +98,7 @@ def run(tier):
     for j in jobs:
         j.subst.pop('NLEXEME = 16', None)
     from ..common import seed as _seed
-    gsub = 6779 if q else 1499
+    gsub = 19937 if q else 1499
     for oi in range(5):
         def explain(mod_, args):
             a, kw = args
